@@ -396,6 +396,35 @@ impl Property for C29 {
           prev = h.score;
         }
         out.class(format!("hybrid-alpha-{alpha}"));
+        // multi-clause hybrid: the text query plus two vector clauses in a bool, one of them with alpha exactly 1
+        // ("BM25 only" for that clause). How several clauses blend is not documented, so only this is judged:
+        // vector search runs for the clause with alpha < 1, hence ("responses include vector_score when vector
+        // search runs") the hits that have a vector and were reachable (k covers every document) carry a
+        // vector_score, and every vector_score is given to a document that has a vector.
+        if *alpha < 1.0 && !*legacy {
+          out.evals += 1;
+          let clause = |a: f32| json!({"type": "vector", "field": "emb", "vector": case.query, "alpha": a, "k": n + 5});
+          let (first, second) = if case.limit % 2 == 0 { (clause(*alpha), clause(1.0)) } else { (clause(1.0), clause(*alpha)) };
+          let mreq = json!({"query": {"type": "bool", "must": [tq], "should": [first, second], "must_not": [], "filter": []}, "limit": n + 5, "return_stored": false, "execution": "bm25"});
+          match sut::search(&reader, mreq.clone()) {
+            Err(_) => out.class("multi-clause-rejected"),
+            Ok(m) => {
+              out.class("multi-clause-hybrid");
+              for h in m.hits.iter() {
+                let i: usize = h.doc_id[1..].parse().unwrap_or(0);
+                let has_vec = matches!(case.docs.get(i).map(|d| d.emb.clone()), Some(Some(Some(_))));
+                if h.vector_score.is_some() && !has_vec {
+                  out.fail("vector-score-for-a-document-without-vector", format!("hit {} carries vector_score {:?}; request {mreq}", h.doc_id, h.vector_score));
+                  return out;
+                }
+                if h.vector_score.is_none() && has_vec {
+                  out.fail("multi-clause-hybrid-without-vector-score", format!("hit {} has a vector and k covers every document, but the hit carries no vector_score although a clause with alpha {alpha} asks for vector search; request {mreq}; hits {:?}", h.doc_id, m.hits.iter().map(|h| (h.doc_id.clone(), h.score, h.vector_score)).collect::<Vec<_>>()));
+                  return out;
+                }
+              }
+            }
+          }
+        }
       }
     }
     if commits.len() >= 2 && (nearer_removed || !case.deletes.is_empty()) {
